@@ -15,6 +15,7 @@ import (
 	"encoding/json"
 	"fmt"
 	mrand "math/rand"
+	"net/netip"
 	"os"
 	"regexp"
 	"sort"
@@ -307,8 +308,15 @@ func lexCmd(text string) (vCmd, vCmd15) {
 // C14: csr.NewReqParam
 
 type vConn struct {
-	First string `json:"first"`
-	Ipc   string `json:"ipc"`
+	First  string `json:"first"`
+	Ipc    string `json:"ipc"`
+	Strict bool   `json:"strict"`
+}
+
+// ipStrictValid: independent validator of "a textual IPv4 / IPv6 address without zone"
+func ipStrictValid(s string) bool {
+	a, err := netip.ParseAddr(s)
+	return err == nil && a.Zone() == ""
 }
 type vArgv struct {
 	Toks  []string `json:"toks"`
@@ -435,7 +443,8 @@ func (r *vRun) do14(in vIn14) {
 		argvIn = argv
 	}
 	c, _ := lexCmd(cmd)
-	ev := vEv14{Op: "reqparam", Cmd: c, Log: hx(logname), Conn: vConn{First: hx(strings.SplitN(conn, " ", 2)[0]), Ipc: in.Ipc},
+	first := strings.SplitN(conn, " ", 2)[0]
+	ev := vEv14{Op: "reqparam", Cmd: c, Log: hx(logname), Conn: vConn{First: hx(first), Ipc: in.Ipc, Strict: ipStrictValid(first)},
 		Argv: vArgv{Toks: toks, Clean: clean}, Xok: in.Xok}
 	res, tid, errtext := callReqParam(cmd, logname, conn, argvIn)
 	ev.Res = res
@@ -510,6 +519,14 @@ var (
 	poolBigVer  = []string{"65536.0", "1.65536", "70000.1", "99999999999999999999.1", "3.4294967296", "100000.100000"}
 	poolV6      = []string{"2001:db8::7", "::1", "fe80::1", "::ffff:192.0.2.1", "2001:0db8:0000:0000:0000:0000:0000:0001", "::", "2001:DB8::A"}
 	poolNotIP   = []string{"gateway.example", "1.2.3", "1.2.3.4.5", "300.1.1.1", "::g", "1.2.3.4:22", "localhost", "1.2.3.", "-1.2.3.4", "12345", "2001:db8:::1", "UNKNOWN"}
+	poolV6Zone  = []string{"fe80::1%eth0", "fe80::1%en0", "fe80::abcd%1", "::1%lo", "fe80::1%eth0.100"}
+	poolZoneBad = []string{"fe80::1%,Principals=root", "fe80::1%\"quoted\"", "fe80::1%a=b,c", "fe80::1%%", "fe80::1%\x00", "fe80::1%", "fe80::1%'$(id)'", "::1%\n", "fe80::1%é",
+		"fe80::1%" + strings.Repeat("A", 3000), "2001:db8::7%,critical-options=x"}
+	poolV4Zone  = []string{"1.2.3.4%x", "10.0.0.1%eth0", "1.2.3.4%", "::ffff:1.2.3.4%eth0"}
+	poolIPJunk  = []string{"x1.2.3.4", "1.2.3.4x", "1.2.3.4,", "::1;", "1.2.3.4\t", "\t1.2.3.4", "1.2.3.4/32", "::1/128", "1.2.3.4\x00", "1.2.3.4,5.6.7.8", "0x1.2.3.4", "1.2.3.4.", "::1::"}
+	poolBracket = []string{"[::1]", "[2001:db8::1]", "[1.2.3.4]", "[::1"}
+	poolPort    = []string{"1.2.3.4:22", "[::1]:22", "1.2.3.4:", ":22"}
+	poolMapped  = []string{"::ffff:1.2.3.4", "::ffff:192.0.2.1", "::ffff:c000:201", "0:0:0:0:0:ffff:10.0.0.1"}
 	poolFill    = []string{"gensign", "-c", "/usr/bin/gensign", "--flag", "a", "b", "c", "d", "e", "NSOK", "NONS", "x=y", "ü"}
 	poolBadPol  = []string{"XXXX", "nsok", "NONSX", "NS0K", "-", "NSOK,NONS", "nons"}
 	poolHandler = []string{"handler", "Regular", "smartcard", "h-1", "x", "NONS1", "ü"}
@@ -686,6 +703,20 @@ func concrete14(r *mrand.Rand, c vCase14, xok string) vIn14 {
 		conn, ipc = "", "notip"
 	case "v4v4":
 		conn, ipc = randV4(r)+" "+randV4(r)+" 22", "v4"
+	case "v6zone":
+		conn, ipc = pick(r, poolV6Zone)+rest, "notip"
+	case "v6zonejunk":
+		conn, ipc = pick(r, poolZoneBad)+rest, "notip"
+	case "v4zone":
+		conn, ipc = pick(r, poolV4Zone)+rest, "notip"
+	case "ipjunk":
+		conn, ipc = pick(r, poolIPJunk)+rest, "notip"
+	case "bracket":
+		conn, ipc = pick(r, poolBracket)+rest, "notip"
+	case "withport":
+		conn, ipc = pick(r, poolPort)+rest, "notip"
+	case "mapped":
+		conn, ipc = pick(r, poolMapped)+rest, "v6"
 	default:
 		conn, ipc = pick(r, poolNotIP)+" "+randV4(r)+" 22", "notip"
 	}
@@ -899,9 +930,9 @@ func randIn14(r *mrand.Rand) vIn14 {
 	cmd, cls := randCmdB(r)
 	in := vIn14{Cmd: hx(cmd), Xok: "na", Cls: cls, Ipc: "unknown"}
 	good := r.Intn(2) == 0 // every other call has well-formed server-side inputs, so that the command text decides
-	lsel, csel := r.Intn(6), r.Intn(8)
+	lsel, csel := r.Intn(6), r.Intn(11)
 	if good {
-		lsel, csel = 2+r.Intn(4), []int{0, 5, 6, 7}[r.Intn(4)]
+		lsel, csel = 2+r.Intn(4), []int{0, 5, 6, 7, 8, 10}[r.Intn(6)]
 	}
 	switch lsel {
 	case 0:
@@ -926,6 +957,12 @@ func randIn14(r *mrand.Rand) vIn14 {
 		in.Conn = hx(randBytes(r, r.Intn(20)))
 	case 4:
 		in.Conn = hx(pick(r, hostileStrings) + rest)
+	case 8: // an address with a zone / junk behind '%' (never a valid client IP)
+		in.Conn, in.Ipc = hx(pick(r, append(append([]string{}, poolV6Zone...), poolZoneBad...))+rest), "notip"
+	case 9: // an address inside other text; the class is left to the validator
+		in.Conn = hx(pick(r, append(append(append(append([]string{}, poolV4Zone...), poolIPJunk...), poolBracket...), poolPort...)) + rest)
+	case 10: // a valid address with something glued on, built freely
+		in.Conn = hx(pick(r, append(append([]string{randV4(r)}, poolV6...), poolMapped...)) + pick(r, []string{"", "", "%", "%" + randCleanUTF8(r, 10), ",", "=", "\"", "%25", "%eth0"}) + rest)
 	default:
 		in.Conn, in.Ipc = hx(randV4(r)+rest), "v4"
 	}
